@@ -18,6 +18,10 @@ struct Case {
     dest: String,
 }
 
+fn have_strace_early() -> bool {
+    std::process::Command::new("strace").arg("-V").output().map(|o| o.status.success()).unwrap_or(false)
+}
+
 pub fn run(ctx: &Ctx) -> i32 {
     let lace = Lace::new(&ctx.lace_bin, &ctx.scratch);
     let mut cases: Vec<Case> = Vec::new();
@@ -61,6 +65,43 @@ pub fn run(ctx: &Ctx) -> i32 {
         cases.push(Case { name: "valid".into(), text: valid_text.clone(), image: Some(valid_image.clone()), dest: dest.into() });
     }
     cases.push(Case { name: "valid-empty".into(), text: "".into(), image: Some(vec![0x3000]), dest: "existing".into() });
+    // images with long runs of zero words (at the end, in the middle, nothing else) and a large
+    // image: "complete file" also means complete in length when most of it is zero
+    let mut shaped: Vec<(&str, Program)> = Vec::new();
+    let mut p = Program::default();
+    p.push(None, Stmt::Add(0, 0, Src2::Imm(Lit::dec(1))));
+    p.push(None, Stmt::Named(0x25, "halt"));
+    p.push(None, Stmt::Blkw(Lit::dec(4096)));
+    shaped.push(("valid-zero-tail", p));
+    let mut p = Program::default();
+    p.push(None, Stmt::Named(0x25, "halt"));
+    p.push(None, Stmt::Blkw(Lit::dec(9000)));
+    p.push(None, Stmt::Fill(Lit::hex(0x1234)));
+    shaped.push(("valid-zero-middle", p));
+    let mut p = Program::default();
+    p.items.push(Item::Orig(Lit::hex(0x0000)));
+    p.push(None, Stmt::Blkw(Lit::dec(8)));
+    shaped.push(("valid-all-zero", p));
+    let mut p = Program::default();
+    p.items.push(Item::Orig(Lit::hex(0x0000)));
+    p.push(None, Stmt::Blkw(Lit::dec(20000)));
+    shaped.push(("valid-all-zero-large", p));
+    let mut p = Program::default();
+    for i in 0..20000u32 {
+        p.push(None, Stmt::Fill(Lit::hex(0x4100 | (i % 251) as u16)));
+    }
+    shaped.push(("valid-large", p));
+    for (name, p) in &shaped {
+        let text = print_plain(p);
+        let image = encode(p, false).unwrap().raw();
+        let mut dests = vec!["absent", "existing", "existing-same-length", "existing-new-image-plus-tail", "devfull"];
+        if have_strace_early() {
+            dests.extend(["inject:1", "inject:2", "inject-absent:1"]);
+        }
+        for dest in dests {
+            cases.push(Case { name: name.to_string(), text: text.clone(), image: Some(image.clone()), dest: dest.into() });
+        }
+    }
     // (iii) every write(2) of the compile history failed with ENOSPC (strace fault injection)
     let have_strace = std::process::Command::new("strace").arg("-V").output().map(|o| o.status.success()).unwrap_or(false);
     if have_strace {
@@ -203,7 +244,7 @@ pub fn run(ctx: &Ctx) -> i32 {
         ctx,
         acc,
         Level { category: "fault_enumeration", bfs: None },
-        "fault enumeration against the real binary: (i) programs of n = 1..4 (thorough 6) statements whose only error is an out-of-range label reference at EVERY emission position k, and lexer / parser / backpatch errors after n-1 good statements, each with the destination absent and pre-existing with known bytes, given explicitly and defaulted (<stem>.lc3); (ii) a valid program with destination absent, pre-existing (longer, of exactly the new length, beginning with the new image, a prefix of it, identical to it), defaulted, /dev/full, a path in a missing directory, a path in a read-only directory, a directory; (iii) a valid program with EVERY write(2) to the destination failed with ENOSPC, one at a time and from the K-th on (strace -e inject). Oracle: exit 0 => the destination holds the complete reference object file; exit != 0 => for (i) and (ii) the destination is byte-identical to before (absent stays absent); for (iii) too (destination pre-existing and absent). non-trivial = distinct fault cases that satisfied the oracle",
+        "fault enumeration against the real binary: (i) programs of n = 1..4 (thorough 6) statements whose only error is an out-of-range label reference at EVERY emission position k, and lexer / parser / backpatch errors after n-1 good statements, each with the destination absent and pre-existing with known bytes, given explicitly and defaulted (<stem>.lc3); (ii) a valid program (and five more shaped ones: zero words at the end, in the middle, nothing but zero words - 8 and 20000 of them -, and 20000 non-zero words) with destination absent, pre-existing (longer, of exactly the new length, beginning with the new image, a prefix of it, identical to it), defaulted, /dev/full, a path in a missing directory, a path in a read-only directory, a directory; (iii) a valid program with EVERY write(2) to the destination failed with ENOSPC, one at a time and from the K-th on (strace -e inject). Oracle: exit 0 => the destination holds the complete reference object file; exit != 0 => for (i) and (ii) the destination is byte-identical to before (absent stays absent); for (iii) too (destination pre-existing and absent). non-trivial = distinct fault cases that satisfied the oracle",
         true,
         &["success-with-complete-file", "failure-leaves-destination"],
         &["strace fault injection models a device that stops accepting data mid-stream", "running as root: the read-only directory case may be writable and then counts as a plain success"],
